@@ -931,33 +931,34 @@ class Text(JupyterMixin):
         )
         if not self._spans:
             return new_lines
-        order = {span: span_index for span_index, span in enumerate(self._spans)}
-        span_stack = sorted(self._spans, key=attrgetter("start"), reverse=True)
+        # each span travels with the index of the original span it was cut from: that index is
+        # its precedence (a dict keyed by the span *value* confuses equal clipped spans)
+        span_stack = sorted(
+            enumerate(self._spans), key=lambda item: item[1].start, reverse=True
+        )
 
         pop = span_stack.pop
         push = span_stack.append
         _Span = Span
-        get_order = order.__getitem__
 
         for line, (start, end) in zip(new_lines, line_ranges):
             if not span_stack:
                 break
-            append_span = line._spans.append
+            line_spans: List[Tuple[int, Span]] = []
             position = len(span_stack) - 1
-            while span_stack[position].start < end:
-                span = pop(position)
+            while span_stack[position][1].start < end:
+                span_index, span = pop(position)
                 add_span, remaining_span = span.split(end)
                 if remaining_span:
-                    push(remaining_span)
-                    order[remaining_span] = order[span]
+                    push((span_index, remaining_span))
                 span_start, span_end, span_style = add_span
                 line_span = _Span(span_start - start, span_end - start, span_style)
-                order[line_span] = order[span]
-                append_span(line_span)
+                line_spans.append((span_index, line_span))
                 position -= 1
                 if position < 0 or not span_stack:
                     break  # pragma: no cover
-            line._spans.sort(key=get_order)
+            line_spans.sort(key=itemgetter(0))
+            line._spans[:] = [line_span for _, line_span in line_spans]
 
         return new_lines
 
